@@ -2,6 +2,7 @@
 # SPDX-License-Identifier: BSD-4-Clause
 from __future__ import annotations
 
+import threading
 import types
 from typing import Any
 
@@ -14,6 +15,7 @@ __all__ = ['SynthNode', 'registered_synthetics', 'synthesize']
 #   __registry is an alias for the modules vars()/ __dict__.
 #   This allows for synthesized types to reside within this module.
 __registry: dict[str, Any] = vars()
+__registry_lock = threading.RLock()
 
 
 @nodedataclass
@@ -40,18 +42,20 @@ def synthesize(name: str, bases: tuple[type, ...], **kwargs: Any) -> type:
     if SynthNode not in bases:
         bases = (*bases, SynthNode)
 
-    found = __registry.get(name)
-    if isinstance(found, type):
-        return found
-    elif found:
-        raise TypeError(f'Found {name!r} in context but its type is {type(found)!r}')
-
     def build_body(ns: dict[str, Any]) -> None:
         ns.update({"__module__": __name__})
         ns.update(kwargs)
 
-    newcls: type = types.new_class(name, bases, exec_body=build_body)
-    __registry[name] = newcls
+    # NOTE: get-or-create must be atomic, or two threads end up with two classes of the same name
+    with __registry_lock:
+        found = __registry.get(name)
+        if isinstance(found, type):
+            return found
+        elif found:
+            raise TypeError(f'Found {name!r} in context but its type is {type(found)!r}')
+
+        newcls: type = types.new_class(name, bases, exec_body=build_body)
+        __registry[name] = newcls
 
     return newcls
 
